@@ -91,6 +91,8 @@ sexp sexp_write_simple_object (sexp ctx, sexp self, sexp_sint_t n, sexp obj, sex
   sexp_gc_var1(args);
   sexp_sint_t i, len, nulls=0;
   sexp_assert_type(ctx, sexp_oportp, SEXP_OPORT, out);
+  if (!sexp_port_openp(out))
+    return sexp_xtype_exception(ctx, self, "write: port is closed", out);
   if (! sexp_pointerp(obj))
     return sexp_write(ctx, obj, out);
   i = sexp_pointer_tag(obj);
@@ -2561,6 +2563,8 @@ sexp sexp_write_one (sexp ctx, sexp obj, sexp out, sexp_sint_t bound) {
 sexp sexp_write_op (sexp ctx, sexp self, sexp_sint_t n, sexp obj, sexp out) {
   sexp res;
   sexp_assert_type(ctx, sexp_oportp, SEXP_OPORT, out);
+  if (!sexp_port_openp(out))
+    return sexp_xtype_exception(ctx, self, "write: port is closed", out);
 #if SEXP_USE_GREEN_THREADS
   sexp_maybe_block_output_port(ctx, out);
 #endif
